@@ -110,9 +110,12 @@ def class_state():
 def o_history(src, calls, threads):
     """every call of the history returns what the same call returns on freshly made objects; the pool's objects
     are attribute-for-attribute what they were before; the same under `threads` concurrent workers"""
+    # the reference results are computed in the REVERSE order of the history: state kept outside the objects (a module-level memo)
+    # would otherwise be built up by the reference runs in the same order as by the history, and show nothing
     base = []
-    for call in calls:
+    for call in reversed(calls):
         base.append(run_call(fresh_pool(), call))
+    base.reverse()
     ns = fresh_pool()
     roots = [ns[n] for n in POOL] + [getattr(construct, n) for n in ('Byte', 'VarInt', 'Flag', 'Pass', 'GreedyBytes', 'Int16ub', 'Int32ul', 'Terminated', 'Tell', 'Index', 'Error')]
     before = [snapshot(r) for r in roots]
@@ -172,6 +175,41 @@ def first_diff(a, b, path=''):
                 return first_diff(x[1], y[1] if isinstance(y, tuple) and len(y) == 2 else y, path + '.' + x[0])
             return first_diff(x, y, path)
     return path
+
+
+PROC_SCRIPT = r'''
+import sys, json
+from construct import *
+calls = json.loads(sys.argv[1])
+out = []
+for src, op, arg in calls:
+    c = eval(src)
+    try:
+        if op == "build":
+            out.append(("ok", c.build(eval(arg)).hex()))
+        else:
+            out.append(("ok", repr(c.parse(bytes.fromhex(arg)))))
+    except Exception as e:
+        out.append(("err", type(e).__name__))
+print(json.dumps(out))
+'''
+
+
+@C.oracle('fresh_process')
+def o_fresh_process(src, calls):
+    """state kept outside the objects (module level) is shared by every object of the process: the last call of a history gives what
+    the same call gives as the FIRST call of a fresh interpreter"""
+    import subprocess, sys, json
+
+    def run(cs):
+        p = subprocess.run([sys.executable, '-c', PROC_SCRIPT, json.dumps(cs)], stdout=subprocess.PIPE, stderr=subprocess.PIPE, timeout=120)
+        if p.returncode != 0:
+            raise RuntimeError(p.stderr.decode()[-300:])
+        return json.loads(p.stdout.decode().strip().splitlines()[-1])
+    full, alone = run(calls), run(calls[-1:])
+    if full[-1] != alone[0]:
+        return 'after %r the call %r gives %r; as the first call of a fresh interpreter it gives %r' % (calls[:-1], calls[-1], full[-1], alone[0])
+    return None
 
 
 @C.oracle('entrypoints')
@@ -302,6 +340,9 @@ def pool_value(rng, name):
         # constant multi-byte keys over data whose length is not a multiple of the key length: a key stream kept between calls shows
         n = rng.choice([0, 1, 2, 4, 5, 7])
         return dict(n=n, d=G.rand_bytes(rng, n), e=G.rand_bytes(rng, rng.choice([0, 1, 3, 4])), f=G.rand_bytes(rng, 3)), kw
+    if name == 'S18':
+        # bit fields of the same width and different signedness, with values only one of them accepts
+        return dict(u=rng.choice([0, 7, 8, 12, 15, -3, 16]), s=rng.choice([0, 7, -8, -3, 12, 8, -9])), kw
     raise KeyError(name)
 
 
@@ -388,6 +429,16 @@ def run(tier, seed):
                 data = bytes(rng.choice([0, 1, 2, 3, 5, 0x81, 0xff]) for _ in range(rng.randint(0, 10)))
             for d in (data, G.mutate(rng, data)):
                 acc.check('entrypoints', src, data=d, kw=kw, pre=pres, positional=positional(src))
+    for calls in [
+            [('Bitwise(BitsInteger(4))', 'build', '12'), ('Bitwise(BitsInteger(4, signed=True))', 'build', '12')],
+            [('Bitwise(BitsInteger(4, signed=True))', 'build', '-3'), ('Bitwise(BitsInteger(4))', 'build', '-3')],
+            [('BitStruct("a"/BitsInteger(3), "b"/BitsInteger(5, signed=True))', 'build', 'dict(a=7, b=-16)'), ('BitStruct("a"/BitsInteger(3, signed=True), "b"/BitsInteger(5))', 'build', 'dict(a=7, b=-16)')],
+            [('Int16ub', 'build', '70000'), ('Int16ub', 'build', '7')], [('VarInt', 'build', '-1'), ('VarInt', 'build', '300')],
+            [('ProcessXor(b"\\x01\\x02\\x04", GreedyBytes)', 'build', 'b"abcd"'), ('ProcessXor(b"\\x01\\x02\\x04", GreedyBytes)', 'build', 'b"abcd"')],
+            [('Enum(Byte, a=1)', 'build', '"zz"'), ('Enum(Byte, a=1, zz=2)', 'build', '"zz"')],
+            [('PaddedString(4, "utf8")', 'parse', 'ff000000'), ('PaddedString(4, "utf8")', 'parse', '61000000')],
+            [('Struct("n"/Byte, "d"/Bytes(this.n))', 'parse', '05'), ('Struct("n"/Byte, "d"/Bytes(this.n))', 'parse', '026162')]]:
+        acc.check('fresh_process', calls[-1][0], calls=[list(c) for c in calls])
     return acc.result(
         rule='histories of 8..40 calls (parse of valid / mutated data, parse_stream at an offset, build of valid / missing values, sizeof under '
              'changing keyword contexts, compile, compiled parse) over a pool of 12 constructs that share members by identity and use the '
